@@ -29,7 +29,7 @@ CHECKS = {
     "C01": dict(
         category="exploration",
         technique="bounded-exhaustive enumeration of program derivations (statement grammar over feature atoms and compound frames, <= 3/4 nodes) x 8 option combinations, differential execution against CPython",
-        text="Every derivation of a statement grammar (27 simple feature atoms, 3 interrupts, 13 compound frames with block holes) with at most 3 (quick) / 4 (thorough) statement nodes is converted under all 8 option combinations and evaluated; stdout and the canonical user globals must equal those of exec(source), and only __ol_*/itertools/importlib names may be added. The space is enumerated completely.",
+        text="Every derivation of a statement grammar (27 simple feature atoms, 3 interrupts, 15 compound frames with block holes) with at most 3 (quick) / 4 (thorough) statement nodes is converted under all 8 option combinations and evaluated; stdout and the canonical user globals must equal those of exec(source), and only __ol_*/itertools/importlib names may be added. The space is enumerated completely.",
         note="Trusted: CPython as reference semantics; the canonical observation (functions/classes by structure, no metadata, no annotations).",
         ref="DESIGN.md 3 C01",
     ),
